@@ -249,12 +249,12 @@ theorem Merge.not_sync {α : Type} :
   have e1 := EnvStep.call (M := Merge.machine α 1) (st := (Merge.machine α 1).init) (stk := []) (g := {}) (tr := [])
     (.subscribe 0) rfl (by simp [legalIn, isTop])
   have r1 := reach_env r0 e1
-  have r2 : SReach (Merge.machine α 1) ⟨(Merge.machine α 1).init, [.run (.subCall 0)], ({} : G).onIn 0 (.subscribe 0),
-      [.inp (.subscribe 0)], none⟩ := .step r1 (.op (by simp [opStep, Merge.machine, Merge.step, Merge.enter]))
+  have r2 := reach_op r1 (OStep.tau (s' := (Merge.machine α 1).init) (l' := .subCall 0)
+    (by simp [Merge.machine, Merge.step, Merge.enter]))
   have r3 := reach_op r2 (OStep.call (o := .subSrc 0) (s' := (Merge.machine α 1).init) (l' := .subLoop 1)
     (by simp [Merge.machine, Merge.step]))
   have e4 := EnvStep.ret (M := Merge.machine α 1) (st := (Merge.machine α 1).init) (stk := [])
-    (g := (({} : G).onIn 0 (.subscribe 0)).onOut (Merge.machine α 1).shape (.subSrc 0 : Out α))
+    (g := (({} : G).onIn 0 (.subscribe 0 : In α)).onOut (Merge.machine α 1).shape (.subSrc 0 : Out α))
     (tr := [.out (.subSrc 0), .inp (.subscribe 0)]) (o := .subSrc 0) (l := .subLoop 1) (by simp [legalRet, Merge.machine])
   have r4 := reach_env r3 e4
   have r5 := reach_op r4 (OStep.ret (by simp [Merge.machine, Merge.step]))
@@ -263,6 +263,20 @@ theorem Merge.not_sync {α : Type} :
   simp [Ph.onIn, Ph.onOut, hopen]
 
 theorem Merge.not_upSide {α : Type} : ¬ UpSide (Merge.machine α 1) := fun U => Merge.not_sync U.sync
+
+/-! ## the other non-instances, for the record -/
+
+/-- `for_each` applies the user's closure: it cannot be the upstream-side component (`compose` has no `app` there) -/
+theorem ForEach.not_upSide {α : Type} (a : α) : ¬ UpSide (ForEach.machine α) :=
+  fun U => U.noApp {} (.d0 a) a {} .pull rfl
+
+/-- `concat!(a, b)` subscribes to member 1: it cannot be the downstream-side component (only upstream 0 is wired) -/
+theorem Concat.not_downSide {α : Type} : ¬ DownSide (Concat.machine α 2) :=
+  fun D => D.oneSrc ⟨1, none, false⟩ .next 0 ⟨1, none, false⟩ .done (by simp [Concat.machine, Concat.step])
+
+/-- `flatten` subscribes to the inner sources 1, 2, …: it cannot be the downstream-side component -/
+theorem Flatten.not_downSide {α : Type} : ¬ DownSide (Flatten.machine α) :=
+  fun D => D.oneSrc {} .od1 0 { nextId := 2 } .done (by simp [Flatten.machine, Flatten.step])
 
 end Cb
 
